@@ -120,8 +120,9 @@ def visit(visitor, obj, attr, glyphs):
 
         if g.isComposite():
             for component in g.components:
-                component.x = visitor.scale(component.x)
-                component.y = visitor.scale(component.y)
+                if hasattr(component, "x"):  # not for point-matched components
+                    component.x = visitor.scale(component.x)
+                    component.y = visitor.scale(component.y)
             continue
 
         if hasattr(g, "coordinates"):
